@@ -87,6 +87,22 @@ func bnConst(v ssa.Value) (int64, bool) {
 		i, ok := constant.Int64Val(c.Value)
 		return i, ok
 	}
+	// arithmetic on constants that go/ssa does not fold (a local initialised
+	// with a constant is a variable to the type checker)
+	if bo, ok := v.(*ssa.BinOp); ok {
+		x, okx := bnConst(bo.X)
+		y, oky := bnConst(bo.Y)
+		if okx && oky {
+			switch bo.Op {
+			case token.ADD:
+				return x + y, true
+			case token.SUB:
+				return x - y, true
+			case token.MUL:
+				return x * y, true
+			}
+		}
+	}
 	return 0, false
 }
 
